@@ -13,6 +13,7 @@ import (
 	"encoding/binary"
 	"encoding/json"
 	"fmt"
+	"io"
 	"time"
 
 	"github.com/blevesearch/mmap-go"
@@ -136,6 +137,12 @@ func ScanFooter(options *StoreOptions, fref *FileRef, fileName string,
 	pos int64) (*Footer, error) {
 	footerBeg := make([]byte, footerBegLen)
 
+	finfo, err := fref.file.Stat()
+	if err != nil {
+		return nil, err
+	}
+	fileSize := finfo.Size()
+
 	// Align pos to the start of a page (floor).
 	pos = pageAlignFloor(pos)
 
@@ -146,9 +153,12 @@ func ScanFooter(options *StoreOptions, fref *FileRef, fileName string,
 			}
 
 			n, err := fref.file.ReadAt(footerBeg, pos)
-			if err != nil {
+			if err != nil && err != io.EOF {
 				return nil, err
 			}
+			// A short read (io.EOF) means that fewer than footerBegLen
+			// bytes follow pos, e.g. a footer that was cut short by a
+			// crash; that is not a footer, so keep scanning backwards.
 
 			if n == footerBegLen &&
 				bytes.Equal(StoreMagicBeg, footerBeg[:lenMagicBeg]) &&
@@ -177,10 +187,19 @@ func ScanFooter(options *StoreOptions, fref *FileRef, fileName string,
 			return nil, err
 		}
 
+		if int64(length) < int64(footerBegLen+footerEndLen) ||
+			pos+int64(length) > fileSize {
+			// The length does not fit a footer or reaches beyond the
+			// end of the file (a torn footer, or data that only looks
+			// like a footer start), so keep scanning.
+			pos -= int64(StorePageSize)
+			continue
+		}
+
 		data := make([]byte, int64(length)-int64(footerBegLen))
 
 		n, err := fref.file.ReadAt(data, pos+int64(footerBegLen))
-		if err != nil {
+		if err != nil && err != io.EOF {
 			return nil, err
 		}
 
